@@ -17,6 +17,9 @@ func init() {
 		},
 		// the HTTP layer between peers is a trusted frame for the verifier: bounded stand-in on the real code
 		BoundedChecks: []BoundedCheck{httpForwardingBounded,
+			{ID: "pool.score_ties", Pkg: "github.com/codelaboratoryltd/bng/pkg/pool", File: "pool_score_ties.go",
+				Bound: "16 peers two of which collide under 64-bit FNV-1a (a real colliding pair), 1395 subscribers for which the two tie",
+				Claim: "rendezvousHash and the head of rendezvousRanked name the same owner for every subscriber (the contracts assume distinct scores; this watches the tie case)"},
 			{ID: "pool.three_nodes", Pkg: "github.com/codelaboratoryltd/bng/pkg/pool", File: "pool_three_nodes.go",
 				Bound: "three nodes over loopback HTTP; the 4 health vectors with at most one node regarded as unhealthy by the others; every entry node; 24 subscribers each; plus 8 subscribers whose owner is unreachable but still regarded as healthy",
 				Claim: "every answer names the first node of the ranking that is regarded as healthy, the subscriber is held by exactly that node's pool after entering at every node; with the owner unreachable the entry node reports the error and holds nothing"}},
